@@ -329,6 +329,33 @@ pub fn run(data: &[u8], ctx: &mut Ctx) -> Outcome {
         }
         ctx.nontrivial = true;
     }
+    // --- drawn last: the predicates 'attachment' / 'isA' (or 'vendor' / 'conformsTo' inside the attachment
+    // objects) obscured after the fact. Lookups go by digest, no digest changes: the same attachments and
+    // the same types are reported.
+    if src.chance(60) {
+        let which = src.below(4);
+        let pred = [known_values::ATTACHMENT, known_values::IS_A, known_values::VENDOR, known_values::CONFORMS_TO][which].clone();
+        let action = match src.below(3) {
+            0 => ObscureAction::Elide,
+            1 => ObscureAction::Encrypt(bridge::case_key()),
+            _ => ObscureAction::Compress,
+        };
+        let both_before = nopanic!(ctx, t.add_assertions(&e.assertions_with_predicate(known_values::ATTACHMENT)), "predicate-obscured", "C19/predicate-obscured");
+        let hidden = nopanic!(ctx, both_before.elide_removing_target_with_action(&Envelope::new(pred.clone()), &action), "predicate-obscured", "C19/predicate-obscured");
+        check!(ctx, hidden.digest() == both_before.digest(), "predicate-obscured", "C19/predicate-obscured", "obscuring a predicate changed the digest");
+        ctx.class(&format!("predicate-obscured:{}", ["attachment", "isA", "vendor", "conformsTo"][which]));
+        let key = format!("C19/predicate-obscured/{}", ["attachment", "isA", "vendor", "conformsTo"][which]);
+        let before_a: Result<BTreeSet<D32>, String> = both_before.attachments().map(|v| v.iter().map(|x| d32(&x.digest())).collect()).map_err(|x| x.to_string());
+        let after_a: Result<BTreeSet<D32>, String> = nopanic!(ctx, hidden.attachments().map(|v| v.iter().map(|x| d32(&x.digest())).collect()).map_err(|x| x.to_string()), "predicate-obscured", &key);
+        check!(ctx, before_a.is_ok() && after_a == before_a, "predicate-obscured", &key, "attachments() before obscuring the predicate: {:?}; after: {:?}", before_a.as_ref().map(|x| x.len()), after_a.as_ref().map(|x| x.len()));
+        let after_t: BTreeSet<D32> = nopanic!(ctx, hidden.types(), "predicate-obscured", &key).iter().map(|x| d32(&x.digest())).collect();
+        check!(ctx, after_t == type_digests, "predicate-obscured", &key, "types() reports {} types after the predicate was obscured, {} were added", after_t.len(), type_digests.len());
+        for a in &atts {
+            let r = nopanic!(ctx, hidden.attachments_with_vendor_and_conforms_to(Some(a.vendor), a.conforms).map(|v| v.iter().map(|x| d32(&x.digest())).collect::<BTreeSet<D32>>()).map_err(|x| x.to_string()), "predicate-obscured", &key);
+            check!(ctx, matches!(&r, Ok(set) if set.contains(&a.digest)), "predicate-obscured", &key, "the attachment (vendor {:?}, conformsTo {:?}) is no longer found by its own vendor and conformsTo: {:?}", a.vendor, a.conforms, r.as_ref().map(|x| x.len()));
+        }
+        ctx.nontrivial = true;
+    }
     if interesting || type_digests.len() >= 2 {
         ctx.nontrivial = true;
     }
